@@ -363,3 +363,40 @@ def check_C15(tier):
     rep.assumptions = ['alphabet of 7 Sids derived from the configuration (two files sharing a sidecar, a file of another type, folders, a sibling, a level without path)',
                        'set() and update() are both driven from the Update action (set with one attribute, set with keywords, update with a mapping)']
     return rep.finish()
+
+
+VTOKENS = ['v%03d' % n for n in list(range(0, 21)) + list(range(996, 1002))]
+
+
+@reg
+def check_C18(tier):
+    rep = Report('C18', tier)
+    env = Env()
+    conf = extract_conf(env, extra_tokens=VTOKENS)
+    env.run('probe_routing.py', [conf])
+    r = mc('VersionDyn', 'VersionDyn_%s.cfg' % tier, conf, dump=True)
+    rep.add_tlc(r, 'all publish behaviours from every initial version set of VersionDyn_%s.cfg (LastIsGreatest, NextIsSuccessor, NewIsFresh, NewIsSuccessorOfLast, OtherFieldsKept, Monotone)' % tier)
+    if r.violation:
+        rep.fail('spec-invariant', 'TLC: ' + K._tlc_error(r.out), record=dict(tlc_tail=r.out[-3000:]))
+        return rep.finish()
+    K.tlc_ok(r, 'VersionDyn')
+    hists = calls_from_dump(r.dumpfile, var='hist')
+    depth = max(len(h) for h in hists)
+    behaviours = [h for h in hists if len(h) == depth]
+    nsim, dsim = (60, 9) if tier == 'quick' else (600, 9)
+    rs, sims = _sim_behaviours('VersionDyn', 'VersionDyn_gen.cfg', conf, nsim, dsim)
+    rep.add_tlc(rs, 'random publish sequences of up to 8 steps (-simulate num=%d)' % nsim)
+    behaviours += [h for h in sims if h]
+    if os.environ.get('VERIF_LIMIT'):
+        behaviours = behaviours[:int(os.environ['VERIF_LIMIT'])]
+    calls = [dict(id=i, steps=h) for i, h in enumerate(behaviours)]
+    K.code_to_spec(rep, env, conf, calls, 'every behaviour replayed: get_last / get_next / get_new read, then WriteToPaths.create(get_new(target))',
+                   module='VersionTrace', script='run_version_dyn.py', tag='ver', extra={'SPIL_CONF_JSON': conf},
+                   envs=store_envs(16, env), per=8, chunk=2000, split_on='"vinit"')
+    rep.exhaustive = True
+    rep.notes['behaviours'] = len(behaviours)
+    for t in ('publish:created', 'publish:nothing-new', 'publish:refused'):
+        rep.guard(t in rep.cover or not calls, '%s never exercised' % t)
+    rep.assumptions = ['version tokens: "v" + 3 digits as configured; numbers 0..20 and 996..1001 modelled',
+                       'targets: task, two versions, a state (no path of its own), a file, and "*" / ">" versions']
+    return rep.finish()
